@@ -280,8 +280,8 @@ def Editor.justifyOpts (ed : Editor α) (width : Int) (o : Options α) : R (Edit
     let ed ← ed.applyOptsM cx (fun _ line => do pure [← justifyLine cx line width]) o
     if !o.justifyLast then pure ((← ed.commit cx).withOpts originalOpts) else pure ed
 
-/-- Editor.InsertDefinitionsTableOpts -/
-def Editor.insertDefTableOpts (ed : Editor α) (pos : Int) (defs : List (List α × List α))
+/-- Editor.InsertDefinitionsTableOpts below its clamp of the width -/
+def Editor.insertDefTableOptsCore (ed : Editor α) (pos : Int) (defs : List (List α × List α))
     (width : Int) (o : Options α) : R (Editor α) := do
   let o := o.withDefaults cx
   let longest : Int := defs.foldl (fun m d => if (gLen cx d.1 : Int) > m then (gLen cx d.1 : Int) else m) (-1)
@@ -304,6 +304,56 @@ def Editor.insertDefTableOpts (ed : Editor α) (pos : Int) (defs : List (List α
     | _, _ => pure (full ++ combined)) []
   if !full.isEmpty then ed.insert cx pos (Block.mk full o.lineSep (!o.noTrailing)).join
   else pure ed
+
+/-- Editor.InsertDefinitionsTableOpts (D21: a negative width is clamped to 0 before
+`width - leftWidth - minBetween`) -/
+def Editor.insertDefTableOpts (ed : Editor α) (pos : Int) (defs : List (List α × List α))
+    (width : Int) (o : Options α) : R (Editor α) :=
+  ed.insertDefTableOptsCore cx pos defs (if width < 0 then 0 else width) o
+
+/-- manip.Wrap takes every width below 2 as 2 -/
+theorem wrapLines_lt_two (text : List α) (w : Int) (sep : List α) (h : w < 2) :
+    wrapLines cx text w sep = wrapLines cx text 2 sep := by
+  unfold wrapLines
+  simp only [h, if_true, show ¬ ((2 : Int) < 2) by decide, if_false]
+
+theorem foldl_longest_ge {β : Type} (f : β → Int) :
+    ∀ (l : List β) (m : Int), m ≤ l.foldl (fun m d => if f d > m then f d else m) m := by
+  intro l
+  induction l with
+  | nil => intro m; exact Int.le_refl m
+  | cons b l ih =>
+    intro m
+    simp only [List.foldl_cons]
+    refine Int.le_trans ?_ (ih _)
+    split <;> omega
+
+/-- the core sees the width only through `Wrap(def, width - leftWidth - 4)` with `leftWidth ≥ 1`,
+and Wrap takes every width below 2 as 2 -/
+theorem Editor.insertDefTableOptsCore_clamp (ed : Editor α) (pos : Int) (defs : List (List α × List α))
+    (w : Int) (o : Options α) :
+    ed.insertDefTableOptsCore cx pos defs (if w < 0 then 0 else w) o =
+      ed.insertDefTableOptsCore cx pos defs w o := by
+  by_cases h : w < 0
+  · simp only [h, if_true]
+    unfold Editor.insertDefTableOptsCore
+    have hl : -1 ≤ List.foldl (fun m (d : List α × List α) =>
+        if (gLen cx d.1 : Int) > m then (gLen cx d.1 : Int) else m) (-1) defs :=
+      foldl_longest_ge (fun d : List α × List α => (gLen cx d.1 : Int)) defs (-1)
+    simp only []
+    generalize List.foldl (fun m (d : List α × List α) =>
+        if (gLen cx d.1 : Int) > m then (gLen cx d.1 : Int) else m) (-1) defs = L at hl ⊢
+    have h1 : ∀ t s, wrapLines cx t (0 - (L + 2) - 2 - 2) s = wrapLines cx t 2 s :=
+      fun t s => wrapLines_lt_two cx t _ s (by omega)
+    have h2 : ∀ t s, wrapLines cx t (w - (L + 2) - 2 - 2) s = wrapLines cx t 2 s :=
+      fun t s => wrapLines_lt_two cx t _ s (by omega)
+    simp only [h1, h2]
+  · simp only [h, if_false]
+
+/-- the public function is its core (as a function, so that partial applications rewrite too) -/
+theorem Editor.insertDefTableOpts_eq_core :
+    Editor.insertDefTableOpts cx = Editor.insertDefTableOptsCore cx := by
+  funext ed pos defs w o; exact Editor.insertDefTableOptsCore_clamp cx ed pos defs w o
 
 /-- Editor.InsertTableOpts -/
 def Editor.insertTableOpts (ed : Editor α) (pos : Int) (data : List (List (List α))) (width : Int)
